@@ -43,7 +43,7 @@ func init() {
 			{ID: "C08-double-build", Desc: "Lock builds its message twice (id skipped, first id never answered)", Rule: "C08/id-allocation",
 				Edits: []Edit{{File: "driver/netconf/lock.go", Old: "\treturn d.sendRPC(d.buildLockElem(target), op)", New: "\t_ = d.buildLockElem(target)\n\n\treturn d.sendRPC(d.buildLockElem(target), op)"}}},
 			{ID: "C08-reset-before-store", Desc: "reader clears its buffer before filing the reply", Rule: "C08/own-id",
-				Edits: []Edit{{File: "driver/netconf/read.go", Old: "\t\t\t\tmessageID = getID(patterns.messageID.FindSubmatch(b))\n", New: "\t\t\t\tmessageID = getID(patterns.messageID.FindSubmatch(b))\n\t\t\t\tb = nil\n"}}},
+				Edits: []Edit{{File: "driver/netconf/read.go", Old: "\t\t\tmessageID = getID(patterns.messageID.FindSubmatch(b))\n", New: "\t\t\tmessageID = getID(patterns.messageID.FindSubmatch(b))\n\t\t\tb = nil\n"}}},
 		},
 	})
 }
